@@ -26,10 +26,10 @@ CHECKS = {
    text="Generated programs with unequal depths run under generated schedules that the harness controls (release permutations of blocked branch threads; systematically enumerated and randomised wake-up orders of pending futures). The barrier invariant - nothing of step k+1 exists while a branch is still inside step k, the macro has not returned - is evaluated while the controller knows exactly who is blocked, so it cannot fire on a correct barrier whatever the timing. Interleavings inside the macro's own glue code are not controlled. Stage 2 (typed chains): 2-4 branches over all 22 operator spellings with `~` in front of half of the operators (operand-less ones and wrappers included) under the non-try macros; the documented chains are evaluated step by step across the branches with a mark between steps, and the macro's global event sequence must never go back to an earlier step."),
  "C07": dict(level="exploration", engine="R", design="6/C07",
    technique="metamorphic property-based testing: the same generated program rendered under the three macro names of its class, results / callback sequences / concurrency signatures compared with each other (no model)",
-   text="Each generated program is compiled under plain, spawn and alias macro names and run under identical enumerated failure plans; the oracle is agreement among the three (results; per-branch callback sequences; thread-name signature; first-poll arrival count distinguishing spawned from inline futures), plus type ascription of the expected result type; a child-process run in which every callback uses 256 KiB of stack must complete under all three names or under none. Stage 2 (typed chains): values that are Send but not Sync under the eight spawning macros against a reference that requires Send + 'static only."),
+   text="Each generated program is compiled under plain, spawn and alias macro names and run under identical enumerated failure plans; the oracle is agreement among the three (results; per-branch callback sequences; thread-name signature; first-poll arrival count distinguishing spawned from inline futures), plus type ascription of the expected result type; a child-process run in which every callback uses 256 KiB of stack must complete under all three names or under none. Stage 2 (typed chains): values that are Send but not Sync under the eight spawning macros against a reference that requires Send + 'static only. A few wide programs (11-16 branches) per run; every sync program also runs once on a calling thread with a long non-ASCII name (outcome and callback set compared within the class)."),
  "C08": dict(level="exploration", engine="R", design="6/C08",
    technique="property-based testing over harness-owned thread schedules: rendezvous at blocking gates, thread identity and name recorded by every callback",
-   text="All gated callbacks of a multi-branch step must arrive while every gate is held closed (a branch waiting for a sibling could not), on distinct non-caller threads with the documented names, also when a custom joiner passes the thread handles through; single-active steps run on the calling thread; the caller is observed not to continue before the last release. The only wall-clock element is the rendezvous deadline (10 s, confirmed once with 20 s) on the failing path."),
+   text="All gated callbacks of a multi-branch step must arrive while every gate is held closed (a branch waiting for a sibling could not), on distinct non-caller threads with the documented names, also when a custom joiner passes the thread handles through; single-active steps run on the calling thread; the caller is observed not to continue before the last release. The only wall-clock element is the rendezvous deadline (10 s, confirmed once with 20 s) on the failing path. While a branch of a multi-branch step is still held at its gate no event of a later step may exist (the caller goes on only after every thread of the step has finished)."),
  "C09": dict(level="exploration", engine="R", design="6/C09",
    technique="property-based testing under a deterministic executor: manual polling with a flag waker inside a current_thread tokio runtime, gate futures opened in systematically enumerated and randomised orders with batches and spurious polls",
    text="Laziness (nothing logged before the first poll, nor when dropped unpolled), step-internal concurrency (every active branch reaches its first pending point; an opened branch reaches its next one while siblings are pending), wake-up propagation and completion with the model's value are checked for every generated wake-up order; a hang shows deterministically as 'all gates open, root pending, not notified'. The future is built in the context of a second, idle runtime and polled on another, and also built and dropped outside any runtime; a quarter of the task-spawning programs use a sequentially awaiting custom joiner (the tasks must run regardless). Multi-threaded tokio schedulers are not explored."),
@@ -38,13 +38,13 @@ CHECKS = {
    text="Every evaluation of a user expression is an event; the multiset of events of a run must equal the model's (exactly once / exactly as often as the method calls it), clone counter 0, no live token after the result is dropped. Stage 2 (typed chains against the documented chain): iterator callbacks per element, fold / try_fold operands, parenthesised blocks (ordinary expressions, evaluated in place), clone- and drop-counted `Ck` values - equal event multisets, equal clone counts, nothing left alive. Stage 3 (library level, engine L): generated structures over all 23 operator spellings in which every user expression carries a unique marker; each marker must occur exactly once in the expansion."),
  "C11": dict(level="exploration", engine="R", design="6/C11",
    technique="property-based testing: ordering invariant over the event log of generated programs with block operands on every hoistable grid position",
-   text="Capture phase of every executed step must be exactly the model's sequence (branch-then-position), after all earlier-step events and before all other events of its own step, also for captures inside nested wrappers, in thread/task-spawning macros and when the branches run through a custom joiner (lazy / handle-passing, a third of the sync programs). Stage 2 (typed chains): block operands on all 14 expression-operand operators incl. both operands of `^@` / `?^@`; per branch the captures must be evaluated once each in written order."),
+   text="Capture phase of every executed step must be exactly the model's sequence (branch-then-position), after all earlier-step events and before all other events of its own step, also for captures inside nested wrappers, in thread/task-spawning macros and when the branches run through a custom joiner (lazy / handle-passing, a third of the sync programs). Stage 2 (typed chains): block operands on all 14 expression-operand operators incl. both operands of `^@` / `?^@`; per branch the captures must be evaluated once each in written order. Every fifth block operand of the grid programs is a labeled block whose value leaves through `break`."),
  "C12": dict(level="exploration", engine="R", design="6/C12",
    technique="property-based testing: snapshots of let-names taken inside generated block captures vs the reference model; result compared with the name-free model",
    text="Random subsets of branches are named, captures of later steps snapshot random names (also of finished branches); every snapshot must equal the named branch's latest step result and the macro's value must be what the model (which ignores names) predicts; `let mut` names are borrowed mutably and changed in place. Stage 2 (typed chains, metamorphic): 85 % of the branches carry a name on the macro side only - also in front of initial values that bind weaker than a method call, as raw identifiers, and handed in as `ident` metavariables by a `macro_rules!` wrapper around the invocation - and must equal the unnamed documented chain."),
  "C13": dict(level="exploration", engine="R", design="6/C13",
    technique="property-based testing with fault enumeration: handler-call events and results of generated (macro x handler kind x position) programs under enumerated failure plans",
-   text="Legal handler kinds at every position among 1-5 branches under all 12 macro names, failure plans enumerated; handler called exactly once iff documented, with the values in branch order (argument hash), async handler futures run. The same command then runs the library-level half (engine L): every (configuration x handler kind x position) is enumerated - wrong kinds must be rejected, legal ones accepted - and every pair of handlers, plus generated structures with an inserted second handler, must be rejected by the parser."),
+   text="Legal handler kinds at every position among 1-5 branches under all 12 macro names, failure plans enumerated; handler called exactly once iff documented, with the values in branch order (argument hash), async handler futures run. The same command then runs the library-level half (engine L): every (configuration x handler kind x position) is enumerated - wrong kinds must be rejected, legal ones accepted - and every pair of handlers, plus generated structures with an inserted second handler, must be rejected by the parser. A library-level input on which the expansion does not terminate (30 s, confirmed with 60 s in a fresh process) is a violation."),
  "C18": dict(level="fault_enumeration", engine="R", design="6/C18",
    technique="fault injection enumerated over every evaluation event of generated programs: child processes with catch_unwind (sync / threads), deterministic executor with catch_unwind around each poll (async)",
    text="Every single event position of each generated program (initial value, operand, callback, capture, handler expression, handler call) is made to panic in turn, under the all-succeed plan and (except the async try macros) under a plan with one failing callback; the panic must be observed by the caller and no later-step event may exist. Thread-spawning macros: the later siblings of the panicking branch are parked until the caller is back - a caller still blocked after 3 s (confirmed with 12 s) is a violation. Async: once the panic has been raised the future must panic at its next poll without any further pending point being opened, and is never left pending with nothing outstanding."),
@@ -56,16 +56,16 @@ CHECKS = {
    text="Each input is lexed, parsed and expanded under catch_unwind with one of the 8 configurations; the outcome must be a valid expression, a syn error or one of the generator's two configuration messages, and fault inputs must be rejected. 420 000 inputs in the quick tier, a third of which reach the generator; the thorough tier adds a coverage-guided libFuzzer stage (12 workers x 300 s) over a token-soup decoder."),
  "C20": dict(level="exploration", engine="L", design="6/C20",
    technique="model-based property testing over histories (proptest): sequences of expansions over a pool of inputs x configurations, replayed sequentially and concurrently on fresh threads; model = first output per (input, config)",
-   text="A history is a pool of generated inputs, a sequence of (input, configuration) expansions with repetition, and a thread count; every later or concurrent expansion must be byte-identical to the first. Hash-order or thread-local state would show because each history constructs fresh hash states and threads; every fourth history is also expanded in two fresh child processes in forward and reverse order (state left behind by the first expansion of a process)."),
+   text="A history is a pool of generated inputs, a sequence of (input, configuration) expansions with repetition, and a thread count; every later or concurrent expansion must be byte-identical to the first. Hash-order or thread-local state would show because each history constructs fresh hash states and threads; every fourth history is also expanded in two fresh child processes in forward and reverse order (state left behind by the first expansion of a process). Wide inputs go up to 26 branches; every second history is re-expanded input by input on fresh threads."),
  "C19": dict(level="exploration", engine="R", design="6/C19",
    technique="property-based testing: counting global allocator around the macro expression of generated join! / try_join! programs (allocation claim); differential compile-and-run of typed chains over !Send / move-only values and caller-stack borrows (bounds claim)",
-   text="Stage 1: generated sequential programs whose user code does not allocate (preallocated event log) are evaluated under enumerated failure plans; the evaluating thread's allocation counter must not move across the macro expression. Stage 2: typed chains under the four non-spawning macros with values that are neither Send nor Clone, move-only values, shared and mutable borrows of the caller's locals (also from handlers, whose futures hold the borrow in the async macros), up to 7 branches; the macro side must compile whenever the documented chain does and agree with it."),
+   text="Stage 1: generated sequential programs whose user code does not allocate (preallocated event log) are evaluated under enumerated failure plans; the evaluating thread's allocation counter must not move across the macro expression. Stage 2: typed chains under the four non-spawning macros with values that are neither Send nor Clone, move-only values, shared and mutable borrows of the caller's locals (also from handlers, whose futures hold the borrow in the async macros), up to 7 branches; the macro side must compile whenever the documented chain does and agree with it. 40 % of the sequential chain programs use `lazy_branches(true)` with a joiner that calls the branch closures; half of their top-level `??` inspectors hold an `Rc`; a fifth of all initial values are plain locals of the caller."),
  "C17": dict(level="exploration", engine="R", design="6/C17",
    technique="property-based testing: wide / long generated grid programs with captures on most positions against the reference model (index stage); typed chains with macro invocations nested in operands, captures and initial values to depth 3, compared with the documented chain (nesting stage)",
    text="Stage 1: programs with up to 24 branches x 24 actions per step and block captures on 70 % of the operand positions under the eight macro kinds - a clash between any two generated names makes a branch use another position's closure or value, which the model comparison shows. Stage 2: every nested invocation (12 macro names; inside operands, block captures, initial values and handlers; depth <= 3) is evaluated once inside an expansion and once in plain Rust and must agree; a quarter of the programs instead give the branches `let` names that are also locals of the caller and mention them in the handler, which must see the caller's locals."),
  "C16": dict(level="exploration", engine="R", design="6/C16",
    technique="property-based testing with logging harness joiners and a stand-in futures crate: generated programs x legal option prefixes through the real proc-macros, invariant over the joiner's own log plus the reference model; exhaustive enumeration of option orders / subsets / duplicates at library level",
-   text="Stage 1 (runtime): generated programs with differing depths under the eight macro kinds carry option prefixes in rotated orders; eager, lazy (reverse-calling), handle-passing, async and self-transposing joiners log invocation count, arity and which branch each argument evaluates, and tag their outputs. Stage 2: `futures_crate_path(::jvrt::fx)` in a crate with no dependency called futures. Stage 3 (engine L): all 65 ordered option subsets x values x gluing first branches parse to the written fields, every single duplicate is rejected. One defect fixed (duplicate accepted after four passes), one open known finding (sync try + transpose_results(false) + unequal depths does not compile; probed on every run)."),
+   text="Stage 1 (runtime): generated programs with differing depths under the eight macro kinds carry option prefixes in rotated orders; eager, lazy (reverse-calling), handle-passing, async and self-transposing joiners log invocation count, arity and which branch each argument evaluates, and tag their outputs. Stage 2: `futures_crate_path(::jvrt::fx)` in a crate with no dependency called futures. Stage 3 (engine L): all 65 ordered option subsets x values x gluing first branches parse to the written fields, every single duplicate is rejected. One defect fixed (duplicate accepted after four passes), one open known finding (sync try + transpose_results(false) + unequal depths does not compile; probed on every run). Programs under the thread-spawning macros with an explicit `lazy_branches(false)` end every step in `-> defer` (the branch expression itself is the closure the thread runs). A library-level input on which the expansion does not terminate (30 s, confirmed with 60 s in a fresh process) is a violation: the option prefix is neither accepted nor rejected."),
 }
 NOT_YET = "check not built yet in this session; to be decided by generated-input search as described in DESIGN.md"
 def main():
